@@ -131,6 +131,14 @@ def gen_op(rng, q, maxnf=5):
         kind = rng.random()
         if kind < 0.15:
             return ['set_dofs', [float(v) for v in x]]              # set_dofs(get_dofs())
+        if kind < 0.30:
+            # a finite-difference sized step: every non-zero entry moved by a relative 1e-8 .. 1e-6, sigma0 possibly from 0 to a few 1e-9 (the object must
+            # follow however small the change is)
+            step = 10.0 ** rnd(rng, -8, -6)
+            x = x * (1 + step * rng.uniform(-1, 1, size=x.shape))
+            if x[4 * n + 1] == 0.0 and rng.random() < 0.5:
+                x[4 * n + 1] = 5e-9
+            return ['set_dofs', [float(v) for v in x]]
         for b in range(4):
             for j in range(n):
                 k = b * n + j
